@@ -29,6 +29,7 @@ ASSUMPTIONS = [
 REQUIRED_COUNTERS = ["rectangles", "fast_vs_general", "oracle_comparisons", "additivity_checks", "margin_checks",
                      "subset_checks", "inverse_roundtrips", "instance_interleavings", "rectangles_starting_at_0"]
 MIN_NONTRIVIAL = {"quick": 100, "thorough": 1500}
+THOROUGH_ROUNDS = 10      # the thorough tier runs the generators this many times (different seeds)
 
 
 def gen_cases(tier, seed):
